@@ -680,4 +680,65 @@ Example C08_vneg_nonvacuous :
   parse_connection_id [192; 0; 0; 0; 1; 21] 0 = (E_CIDLen, []).
 Proof. vm_compute. split; reflexivity. Qed.
 Print Assumptions C08_vneg_nonvacuous.
+(** Round 3 — the routing helpers of header.go (used on datagrams before a connection exists). *)
+From V Require Import Wire.HeadersHelpersProofs.
+
+(** ParseArbitraryLenConnectionIDs: on success the reported length is exactly the invariant header
+    1 + 4 + 1 + dcil + 1 + scil, within the input, connection IDs of at most 255 bytes. *)
+Theorem C08_arbitrary_cids_consumed : forall data n dst src,
+  Forall is_byte data -> parse_arbitrary data = (0, n, dst, src) ->
+  n = 7 + zlen dst + zlen src /\ n <= zlen data /\ zlen dst <= 255 /\ zlen src <= 255.
+Proof. exact arbitrary_consumed. Qed.
+Print Assumptions C08_arbitrary_cids_consumed.
+
+(** ... and whenever the full long-header parser gets past the connection IDs (accepts, or reports
+    an unsupported version) it returns the same two connection IDs, read from a prefix of what
+    parseHeader read. *)
+Theorem C08_arbitrary_cids_agree : forall b h e,
+  Forall is_byte b -> parse_header b = Some (h, e) -> accepted e ->
+  exists n, parse_arbitrary b = (0, n, hDst h, hSrc h) /\ n <= hParsedLen h.
+Proof. exact arbitrary_agrees. Qed.
+Print Assumptions C08_arbitrary_cids_agree.
+
+(** ParseVersion, IsVersionNegotiationPacket and Is0RTTPacket depend on the first five bytes only;
+    on shorter inputs they answer EOF / false / false. *)
+Theorem C08_header_helpers_prefix_only : forall b rest, 5 <= zlen b ->
+  parse_version (b ++ rest) = parse_version b /\ is_vneg (b ++ rest) = is_vneg b /\ is_0rtt (b ++ rest) = is_0rtt b.
+Proof. exact prefix_only. Qed.
+Print Assumptions C08_header_helpers_prefix_only.
+
+Theorem C08_header_helpers_short_input : forall b, zlen b < 5 ->
+  parse_version b = (E_EOF, 0) /\ is_vneg b = false /\ is_0rtt b = false.
+Proof. exact short_input. Qed.
+Print Assumptions C08_header_helpers_short_input.
+
+(** they agree with the long-header parser: same version, and "Version Negotiation" = long header with version 0 *)
+Theorem C08_version_agrees : forall b h e, parse_header b = Some (h, e) -> 6 <= zlen b ->
+  parse_version b = (0, hVersion h) /\ is_vneg b = is_long (hTypeByte h) && (hVersion h =? 0).
+Proof. exact version_agrees. Qed.
+Print Assumptions C08_version_agrees.
+
+Theorem C08_vneg_header : forall b h, parse_header b = Some (h, 0) -> 6 <= zlen b -> is_long (hd 0 b) = true ->
+  (is_vneg b = true <-> hVersion h = 0).
+Proof. exact vneg_header. Qed.
+Print Assumptions C08_vneg_header.
+
+(** ParseVersionNegotiationPacket consumes the whole packet: a non-empty list of 4-byte versions follows the header. *)
+Theorem C08_vneg_consumed : forall b dst src vs,
+  Forall is_byte b -> parse_vneg b = (0, dst, src, vs) ->
+  vs <> [] /\ zlen b = 7 + zlen dst + zlen src + 4 * zlen vs.
+Proof. exact vneg_consumed. Qed.
+Print Assumptions C08_vneg_consumed.
+
+Example C08_header_helpers_nonvacuous :
+  let b := [192; 0; 0; 0; 1; 2; 10; 11; 1; 12; 0; 5; 1; 2; 3; 4; 5] in
+  Forall is_byte b /\ (exists h, parse_header b = Some (h, 0) /\ hVersion h = 1) /\
+  parse_arbitrary b = (0, 10, [10; 11], [12]) /\ parse_version b = (0, 1) /\ is_vneg b = false /\
+  parse_vneg [200; 0; 0; 0; 0; 1; 7; 0; 0; 0; 0; 1] = (0, [7], [], [1]).
+Proof.
+  cbv zeta. split; [repeat constructor; unfold is_byte; lia|].
+  split; [eexists; split; vm_compute; reflexivity|]. repeat split; vm_compute; reflexivity.
+Qed.
+Print Assumptions C08_header_helpers_nonvacuous.
+
 (* ==== end headers ==== *)
